@@ -1,9 +1,10 @@
 (* C18 — the parser accepts exactly whole grammar statements and keeps no state between statements.
    bql / sbql / the hook attachment tables are regenerated from /repo on every run. *)
-From Coq Require Import List NArith Bool.
+From Coq Require Import List NArith Bool String.
 Import ListNotations.
-From BWGrammar Require Import Grammar GrammarProofs HookParser HookParserProofs Hooks HooksProofs.
+From BWGrammar Require Import Grammar GrammarProofs HookParser HookParserProofs HookLog HookLogProofs Hooks HooksProofs HooksInst.
 From BWGrammar.Gen Require Import GrammarGen.
+Open Scope list_scope.
 Open Scope N_scope.
 
 Lemma bql_ok : ll1_ok bql START tok_eof = true.
@@ -42,7 +43,7 @@ Print Assumptions C18_terminates.
    over the plain grammar, leaving the same tokens *)
 Theorem C18_semantic_subset :
   forall (Tok St : Type) (kind : Tok -> N) (eof_tok : Tok)
-         (hstart hend : N -> nat -> St -> option St) (helem : N -> nat -> elem -> Tok -> St -> option St)
+         (hstart hend : N -> nat -> St -> St * bool) (helem : N -> nat -> elem -> Tok -> St -> St * bool)
          ts st rest st',
     kind eof_tok = tok_eof ->
     hparse sbql Tok St kind eof_tok hstart hend helem START tok_eof ts st = HOk rest st' ->
@@ -56,27 +57,42 @@ Print Assumptions C18_semantic_subset.
 
 (* ---- no state between statements: the closures that keep variables between calls ---- *)
 
-(* (partial) the data accumulator and the global-bound collector: whatever state earlier statements (accepted or
-   rejected) left behind, a run that starts with the token with which these closures are first called in a
-   statement behaves as from the initial state; that this IS their first token is the table fact below *)
+(* (partial: two of the six closures with variables) For ANY user hooks, ANY token list and ANY fuel, run the parser
+   with hooks over the semantic grammar from START, logging every ProcessedElement call (also failing ones).  The
+   tokens the dataAccumulator closure sees are the token entries of the alternatives it is attached to (table
+   regenerated from SemanticBQL()); likewise collectGlobalBounds.  Whatever state s0 earlier statements - accepted
+   or rejected - left in the closure, the outputs of the closure machine over these tokens are those from the initial
+   state: the closure contributes nothing of the history to the meaning or the acceptance of this statement. *)
 Theorem C18_stateless_data_bounds_partial :
-  (forall s0 k ok r, is_stmt_open k = true ->
-      da_run da_step s0 ((k, ok) :: r) = da_run da_step DA0 ((k, ok) :: r)) /\
-  (forall s0 k ok r, is_bound_op k = true ->
-      gb_run gb_step s0 ((k, ok) :: r) = gb_run gb_step (None, None) ((k, ok) :: r)) /\
-  (forall inp, ~ In GbPanic (fst (gb_run gb_step (None, None) inp))).
+  forall (Tok USt : Type) (kind : Tok -> N) (eof_tok : Tok)
+         (ustart uend : N -> nat -> USt -> USt * bool) (uelem : N -> nat -> elem -> Tok -> USt -> USt * bool)
+         (okf : Tok -> bool) f ts u0,
+    match run_log Tok USt kind eof_tok ustart uend uelem f ts u0 with
+    | HOutOfFuel => True
+    | HOk _ st | HReject st | HHookErr st =>
+        (forall s0, fst (da_run da_step s0 (inputs Tok kind okf (visible Tok (attached_by "dataAccumulator"%string) (snd st))))
+                  = fst (da_run da_step DA0 (inputs Tok kind okf (visible Tok (attached_by "dataAccumulator"%string) (snd st)))))
+        /\
+        (forall s0, fst (gb_run gb_step s0 (inputs Tok kind okf (visible Tok (attached_by "collectGlobalBounds"%string) (snd st))))
+                  = fst (gb_run gb_step (None, None) (inputs Tok kind okf (visible Tok (attached_by "collectGlobalBounds"%string) (snd st)))))
+    end.
 Proof.
-  split; [exact da_stateless|]. split; [exact gb_stateless|].
-  intros inp. apply gb_no_panic. intros H. cbn in H. contradiction.
+  intros Tok USt kind eof_tok us ue ul okf f ts u0.
+  assert (C1 : da_start_cond = true) by (vm_compute; reflexivity).
+  assert (C2 : da_guard_cond = true) by (vm_compute; reflexivity).
+  assert (C3 : gb_cond = true) by (vm_compute; reflexivity).
+  pose proof (data_accumulator_sees_reset_first Tok USt kind eof_tok us ue ul C1 C2 f ts u0) as Hd.
+  pose proof (global_bounds_sees_reset_first Tok USt kind eof_tok us ue ul C3 f ts u0) as Hg.
+  destruct (run_log Tok USt kind eof_tok us ue ul f ts u0) as [rest st|st|st|]; [| | |exact I];
+    cbn [ext] in Hd, Hg; destruct Hd as [d1 [E1 O1]]; destruct Hg as [d2 [E2 O2]]; cbn [snd app] in E1, E2;
+    (split; [rewrite E1; apply okd_da_outputs; exact O1 | rewrite E2; apply okd_gb_outputs; exact O2]).
 Qed.
 Print Assumptions C18_stateless_data_bounds_partial.
 
-(* where these two closures are attached in SemanticBQL(), complete over the generated tables: the global-bound
-   collector only on token-only alternatives that start with BEFORE/AFTER/BETWEEN; the data accumulator on START
-   alternatives starting with INSERT/DELETE and on rules referenced only from alternatives it is attached to *)
-Theorem C18_hook_attachment : gb_guard = true /\ da_guard = true.
-Proof. vm_compute. split; reflexivity. Qed.
-Print Assumptions C18_hook_attachment.
+(* the closure that dereferences a pointer it may not have: never nil, for every token sequence *)
+Theorem C18_global_bounds_no_nil_deref : forall inp, ~ In GbPanic (fst (gb_run gb_step (None, None) inp)).
+Proof. intros inp. apply gb_no_panic. intros H. cbn in H. contradiction. Qed.
+Print Assumptions C18_global_bounds_no_nil_deref.
 
 (* (refuted) the full statement "earlier statements never change the meaning": the lastNopToken closures of the WHERE
    hooks keep state; a statement that stops after "type" makes the next statement's subject binding a TYPE alias.
@@ -95,7 +111,7 @@ Proof. exact da_old_refuted. Qed.
 Print Assumptions C18_old_data_accumulator_refuted.
 
 Example C18_nonvacuous_greedy :
-  exists w, gder bql tok_eof START w [tok_eof] /\ length w = 3%nat.
+  exists w, gder bql tok_eof START w [tok_eof] /\ List.length w = 3%nat.
 Proof.
   (* show graphs ; *)
   exists [tk_SHOW; tk_GRAPHS; tk_SEMICOLON]. split; [|reflexivity].
